@@ -75,7 +75,7 @@ def corruptions(tr):
     def drop_consult(e):
         i = _first(e, lambda x: x["e"] == "gsc" and x["by"] == "deme" and x["b"])
         del e[i]
-    mk("dropped_consult", {"C03_DemeCountEqualsCalls", "Desync", "C06_GenerationsRecorded", "C06_SteppedExactlyOnce"}, drop_consult)
+    mk("dropped_consult", {"C03_DemeCountEqualsCalls", "C06_SteppedExactlyOnce"}, drop_consult)
 
     def hib_flag(e):
         i = _first(e, lambda x: x["e"] == "gsc" and x["by"] == "run" and x["snap"]["mc"] >= 2)
